@@ -340,6 +340,11 @@ func init() {
 		fr.i.ps.events = append(fr.i.ps.events, fmt.Sprintf("os.Exit(%v) by %s", args[0], fr.th.name))
 		panic(exitPanic{int(asInt64(args[0]))})
 	}
+	ext["golang.org/x/sys/unix.Statfs"] = func(fr *frame, args []value) value {
+		// default (harnesses may intercept): no file system information available
+		errno := fr.i.prog.ImportedPackage("syscall").Type("Errno").Type()
+		return iface{t: errno, v: uintptr(38)}
+	}
 	ext["os.Getpagesize"] = func(fr *frame, args []value) value { return 4096 }
 	ext["syscall.Getpagesize"] = func(fr *frame, args []value) value { return 4096 }
 	ext["golang.org/x/sys/unix.Getpagesize"] = func(fr *frame, args []value) value { return 4096 }
